@@ -430,7 +430,9 @@ func runScriptRaw(c *Case) error {
 			}
 			// rounds of G pipelined requests on private fids, some flushed right away
 			ops := c.Ops[ci%len(c.Ops)]
-			fid := uint32(100)
+			// fid numbers (hence the scripted implementation's request keys) are
+			// unique across connections: its FlushOp identifies requests by key
+			fid := uint32(100 + 1000000*ci)
 			for round := 0; round < len(ops); round++ {
 				var stream []byte
 				want := map[uint16]bool{}
@@ -515,7 +517,7 @@ func bucket(n int) string {
 var opKinds = []string{"create", "write", "read", "stat", "statroot", "wstat", "readdir", "remove", "walkmissing"}
 
 func TestPropWorkloads(t *testing.T) {
-	hx.Check(t, "workloads", hx.N(40, 500), func(t *rapid.T) {
+	hx.Check(t, "workloads", hx.N(90, 900), func(t *rapid.T) {
 		c := &Case{Target: rapid.SampledFrom([]string{"ufs", "ufs", "script", "scriptraw"}).Draw(t, "target"), Dotu: rapid.Bool().Draw(t, "dotu"),
 			NConn: rapid.IntRange(1, 4).Draw(t, "nconn"), G: rapid.IntRange(2, 16).Draw(t, "g"), Flush: rapid.Bool().Draw(t, "flush"),
 			Debug: rapid.IntRange(0, 2).Draw(t, "debug") == 0, Churn: rapid.IntRange(0, 4).Draw(t, "churn"), Perturb: rapid.Uint64().Draw(t, "perturb"),
